@@ -231,6 +231,7 @@ def execute(sc, ctx) -> None:
             writes.append((kind, rel, size_before, size_after - size_before))
 
         sim.write_hook = hook
+        sim.fine_grained = True
         sim.begin_op(0, budget=100000)
         reader = FilReader(fs.paths)
         try:
